@@ -63,7 +63,7 @@ func layout(toks []synTok, mode int, rng *rand.Rand) (string, []int) {
 				case 2:
 					b.WriteString("\n\n")
 				case 3:
-					b.WriteString(" # a comment ; { ( \"\n")
+					b.WriteString(" # a comment ; { ( \" é 世\n")
 				case 4:
 					b.WriteString(";\n")
 				default:
@@ -110,7 +110,7 @@ func layout(toks []synTok, mode int, rng *rand.Rand) (string, []int) {
 				case 1:
 					b.WriteString("\n\n  ")
 				case 2:
-					b.WriteString("# c\n\t")
+					b.WriteString("# c é\n\t")
 				}
 			}
 		}
